@@ -1,5 +1,6 @@
 """C20 -- fork choice is stable (independent of arrival order) and respects finality (family B, specs/ForkDetector)."""
 import os
+import time
 import vlib
 
 PROPS = ["C20"]
@@ -35,6 +36,11 @@ def cfg(sd, name, **kw):
 def run(ctx):
     sd = ctx.stage()
     q = ctx.quick
+    t0 = [time.time()]
+
+    def lap(name):
+        ctx.notes.append("%s: %.0fs" % (name, time.time() - t0[0]))
+        t0[0] = time.time()
     ctx.assume(
         "ForkDetectorOps.tla is a statement-by-statement transcription of baseForkDetector/shardForkDetector/"
         "metaForkDetector; every call of the public API is one atomic step (the detectors' two mutexes are not modelled, "
@@ -49,6 +55,7 @@ def run(ctx):
         "a difference between the real detector and the specification that does not falsify C20a/C20b is reported as "
         "drift, not as a violation")
     exe = ctx.go_build("vh-forkdetector")
+    lap("build")
     inv1 = "INVARIANTS Inv_C20a Inv_StateOK Inv_ForkNamesCompetitor"
     inv2 = "INVARIANTS Inv_C20b Inv_TwinFinal Inv_C20a"
     if not q:
@@ -61,10 +68,11 @@ def run(ctx):
         cfg(sd, "t1.cfg", spec="BoundedSpec", univ="MCUniverses", maxlist=4, rounds="1, 2, 3, 15", depth=5, groups=2,
             rest="VIEW cvars\n" + inv2)
         ctx.tlc(sd, "MC_ForkTwin", "t1.cfg", timeout=3000)
+    lap("R1 deep")
     # ---- R1 + R2a: exhaustive within the depth bound with all invariants; one behaviour per transition of the abstract
     #      state graph (up to EmitDepth) is exported and replayed on the real detectors
     cfg(sd, "gen.cfg", spec="GenSpec", log="LogAppend", univ="MCUniversesQuick" if q else "MCUniverses",
-        rounds="1, 15" if q else "1, 2, 3, 15", depth=4, emit=4, nota=0,
+        rounds="2, 15" if q else "1, 2, 3, 15", depth=4, emit=3 if q else 4, nota=0,
         rest="VIEW cvars\nACTION_CONSTRAINT EmitEdge\n" + inv1)
     beh = ctx.path("edges.ndjson")
     g = ctx.tlc(sd, "MC_ForkDetector", "gen.cfg", timeout=3000, behaviours_out=beh)
@@ -77,10 +85,11 @@ def run(ctx):
             distinct_forks_reported=int(r.stats.get("distinct_forks_reported", 0)))
     if r.stats and int(r.stats.get("distinct_forks_reported", 0)) == 0:
         ctx.broken.append("vacuous: no replayed behaviour made the real detector report a fork")
+    lap("edges+replay")
     # ---- R1 + R2b: the twin product (C20b for every permutation of <= 3 competing headers and every continuation
     #      within the bound); behaviours that contain a permuted group are replayed on two real detectors each
     cfg(sd, "tgen.cfg", spec="GenSpec", log="LogAppend", univ="MCUniversesQuick" if q else "MCUniverses", maxlist=4,
-        rounds="1, 15" if q else "1, 2, 15", depth=4, emit=3 if q else 4, groups=1,
+        rounds="2, 15" if q else "1, 2, 15", depth=4, emit=3 if q else 4, groups=1,
         rest="VIEW cvars\nACTION_CONSTRAINT EmitTwinEdge\n" + inv2)
     tbeh = ctx.path("twins.ndjson")
     ctx.tlc(sd, "MC_ForkTwin", "tgen.cfg", timeout=3000, behaviours_out=tbeh)
@@ -89,24 +98,26 @@ def run(ctx):
             twin_states_with_fork=int(t.stats.get("twin_states_with_fork", 0)))
     if t.stats and int(t.stats.get("twin_states_with_fork", 0)) == 0:
         ctx.broken.append("vacuous: no twin behaviour reached a state in which a fork is reported")
+    lap("twins+replay")
     # ---- R2c: long simulated behaviours over the larger universes (single and twin)
-    cfg(sd, "sim.cfg", spec="GenSpec", log="LogAppend", univ="MCUniversesSim", rounds="1, 2, 3, 4, 5, 6, 15, 20, 40",
-        roll="1, 2", maxlist=5, nota=1, depth=25, rest="ACTION_CONSTRAINT EmitFull")
+    cfg(sd, "sim.cfg", spec="SimSpec", log="LogAppend", univ="MCUniversesSim", rounds="1, 2, 3, 4, 5, 6, 15, 20, 40",
+        roll="1, 2", maxlist=5, nota=0 if q else 1, depth=25, rest="ACTION_CONSTRAINT EmitFull")
     sbeh = ctx.path("sim.ndjson")
-    ctx.tlc(sd, "MC_ForkDetector", "sim.cfg", simulate=40 if q else 600, depth=25, timeout=1800, behaviours_out=sbeh,
+    ctx.tlc(sd, "MC_ForkDetector", "sim.cfg", simulate=30 if q else 1000, depth=25, timeout=1800, behaviours_out=sbeh,
             count=False)
     r2 = ctx.vh(exe, ["replay", sbeh], timeout=1800, count_samples=False)
     ctx.cov(traces_validated_against_impl=int(r2.stats.get("behaviours", 0)), evaluations=int(r2.stats.get("steps", 0)))
-    cfg(sd, "tsim.cfg", spec="GenSpec", log="LogAppend", univ="MCUniversesSim", rounds="1, 2, 3, 4, 5, 6, 15, 20",
-        roll="1, 2", maxlist=6, nota=1, depth=14, groups=3, rest="ACTION_CONSTRAINT EmitTwinFull")
+    cfg(sd, "tsim.cfg", spec="SimSpec", log="LogAppend", univ="MCUniversesSim", rounds="1, 2, 3, 4, 5, 6, 15, 20",
+        roll="1, 2", maxlist=6, nota=0 if q else 1, depth=14, groups=3, rest="ACTION_CONSTRAINT EmitTwinFull")
     tsbeh = ctx.path("tsim.ndjson")
-    ctx.tlc(sd, "MC_ForkTwin", "tsim.cfg", simulate=60 if q else 800, depth=14, timeout=1800, behaviours_out=tsbeh,
+    ctx.tlc(sd, "MC_ForkTwin", "tsim.cfg", simulate=60 if q else 3000, depth=14, timeout=1800, behaviours_out=tsbeh,
             count=False)
     t2 = ctx.vh(exe, ["twin", tsbeh], timeout=1800, count_samples=False)
     ctx.cov(traces_validated_against_impl=int(t2.stats.get("behaviours", 0)), evaluations=int(t2.stats.get("steps", 0)))
+    lap("simulation+replay")
     # ---- R3: random histories on real detectors over random universes, validated by TLC (Inv_C20a on every state)
     tr = os.path.join(sd, "trace.ndjson")
-    nt, ln = (16, 80) if q else (200, 200)
+    nt, ln = (10, 60) if q else (200, 200)
     r3 = ctx.vh(exe, ["record", ctx.seed, nt, ln, tr], count_samples=False)
     st, line = vlib.validate_trace(ctx, sd, "Trace_ForkDetector", "Trace_ForkDetector.cfg", tr,
                                    int(r3.stats.get("events", 0)), "C20/trace", divergence_is_violation=False,
@@ -121,6 +132,7 @@ def run(ctx):
                     break
             return evs
         vlib.selftest_rejects(ctx, sd, "Trace_ForkDetector", "Trace_ForkDetector.cfg", tr, corrupt)
+    lap("trace validation")
     ctx.cov(rule="R2: every transition of ForkDetector.tla's state graph within the depth bound (shard and meta detector, "
                  "universes with same-round competitors / later-epoch competitors / black-listed parents / 3-nonce chains; "
                  "received, processed, proposed, notarized, remove, resets, roll back, round jumps) replayed on the real "
